@@ -49,7 +49,7 @@ type UniversalDecoder struct {
 }
 
 func (_this *UniversalDecoder) Decode(reader io.Reader, eventReceiver events.DataEventReceiver) error {
-	bufReader := bufio.NewReader(reader)
+	bufReader := bufio.NewReader(&stickyErrorReader{reader: reader})
 	firstByte, err := bufReader.Peek(1)
 	if err != nil {
 		return err
@@ -60,6 +60,25 @@ func (_this *UniversalDecoder) Decode(reader io.Reader, eventReceiver events.Dat
 	} else {
 		return err
 	}
+}
+
+// stickyErrorReader keeps reporting the first error other than io.EOF that its
+// reader reports. A bufio.Reader that is copied from with io.Copy forgets an
+// error that arrived together with data if a later read succeeds.
+type stickyErrorReader struct {
+	reader io.Reader
+	err    error
+}
+
+func (_this *stickyErrorReader) Read(p []byte) (n int, err error) {
+	if _this.err != nil {
+		return 0, _this.err
+	}
+	n, err = _this.reader.Read(p)
+	if err != nil && err != io.EOF {
+		_this.err = err
+	}
+	return
 }
 
 func (_this *UniversalDecoder) DecodeDocument(document []byte, eventReceiver events.DataEventReceiver) error {
